@@ -33,6 +33,10 @@ TECHNIQUE += '; evaluation of convert_to_unrestricted on abstract restricted orb
 EXPLANATION += ' R3 no longer matches the constructor template: convert_to_unrestricted is interpreted on abstract restricted orbitals (explicit occs_aminusb, missing optional arrays, no occupations, six constant occupation patterns) and every alpha/beta view, nelec, spinpol and the orbital counts of the result are compared with those of the input; identity on unrestricted input and ValueError on generalized input are evaluated the same way.'
 TECHNIQUE += '; evaluation of convert_to_segmented / prepare_segmented on abstract basis sets'
 EXPLANATION += ' R1/R2 no longer match loop templates: convert_to_segmented is interpreted on ten abstract shells (symbolic exponents / coefficients, one contraction with vanishing coefficients) for keep_sp in {False, True} and the output is compared shell by shell (center, angular momentum, kind, exponents, coefficient column, order, idempotence); prepare_segmented is interpreted on 20 shell / keep_sp combinations and must return the same object exactly when convert_to_segmented keeps the shell, else raise PrepareDumpError.'
+# --- metadata added for batch 7
+TECHNIQUE += '; evaluated guard matrix; typestate clause for copyability'
+EXPLANATION += " Added: (R6) the writers' pre-flight applies segmentation / un-restriction exactly where the format needs it (guard matrix evaluated per format and object class, also prepare_*(allow_changes=True) contents); (R7) every conversion is a copy made with attrs.evolve, which exists only if an object in any reachable state can be constructed again from its own fields (typestate clause C11-R5)."
+# --- end metadata batch 7
 TRUSTED = ["CPython ast parser", "attrs.evolve copies all fields not named", "np.concatenate keeps the order of its inputs"]
 
 
